@@ -107,6 +107,13 @@ impl Subject for SlruSubj {
         out.push((a && b) as i128);
         out
     }
+    fn weak_audit(&self, limit: usize) -> Ints {
+        let (prob, prot) = self.c.verif_parts();
+        let mut out = vec![];
+        weak_audit_list(prob, limit, &mut out);
+        weak_audit_list(prot, limit, &mut out);
+        out
+    }
 }
 use caches::Cache as _;
 
@@ -167,6 +174,14 @@ impl Subject for TwoQSubj {
         out.push((a && b && c && caps) as i128);
         out
     }
+    fn weak_audit(&self, limit: usize) -> Ints {
+        let (r, f, g, _) = self.c.verif_parts();
+        let mut out = vec![];
+        weak_audit_list(r, limit, &mut out);
+        weak_audit_list(f, limit, &mut out);
+        weak_audit_list(g, limit, &mut out);
+        out
+    }
 }
 
 // ---------------------------------------------------------------- AdaptiveCache
@@ -225,6 +240,15 @@ impl Subject for ArcSubj {
         let n = self.c.cap();
         let caps = t1.cap() == n && b1.cap() == n && t2.cap() == n && b2.cap() == n;
         out.push((a && b && c && d && caps) as i128);
+        out
+    }
+    fn weak_audit(&self, limit: usize) -> Ints {
+        let (t1, b1, t2, b2) = self.c.verif_parts();
+        let mut out = vec![];
+        weak_audit_list(t1, limit, &mut out);
+        weak_audit_list(b1, limit, &mut out);
+        weak_audit_list(t2, limit, &mut out);
+        weak_audit_list(b2, limit, &mut out);
         out
     }
 }
